@@ -2,11 +2,11 @@
 (* C20: TLC as evaluator of the interface predicates; one state per group of predicates. *)
 EXTENDS XrlBindings
 VARIABLE g
-Groups == {"const-fortran", "const-pascal", "const-idl", "const-java", "missing", "inclusion", "proto-cython", "proto-fortran", "proto-pascal", "proto-idl", "glue-idl", "swig-apply", "enums", "libtool", "exports", "versions"}
+Groups == {"const-fortran", "const-pascal", "const-idl", "const-java", "const-java-runtime", "missing", "inclusion", "proto-cython", "proto-fortran", "proto-pascal", "proto-idl", "glue-idl", "swig-apply", "enums", "libtool", "exports", "versions"}
 Init == g = ""
 Next == g = "" /\ \E x \in Groups : g' = x
 Of(x) == CASE x = "const-fortran" -> ConstComplaints("fortran") [] x = "const-pascal" -> ConstComplaints("pascal") [] x = "const-idl" -> ConstComplaints("idl")
-           [] x = "const-java" -> ConstComplaints("java") [] x = "missing" -> UNION { Missing(b) : b \in {"fortran", "pascal", "idl", "java", "cython"} }
+           [] x = "const-java" -> ConstComplaints("java") [] x = "const-java-runtime" -> ConstComplaints("java_runtime") [] x = "missing" -> UNION { Missing(b) : b \in {"fortran", "pascal", "idl", "java", "cython"} }
            [] x = "inclusion" -> ByInclusion [] x = "proto-cython" -> CythonProtoComplaints [] x = "proto-fortran" -> FortranProtoComplaints [] x = "proto-pascal" -> PascalProtoComplaints [] x = "proto-idl" -> IdlDlmComplaints [] x = "glue-idl" -> IdlGlueComplaints [] x = "swig-apply" -> SwigApplyComplaints [] x = "enums" -> EnumComplaints [] x = "libtool" -> LibtoolComplaints
            [] x = "exports" -> ExportComplaints [] x = "versions" -> VersionComplaints
 Judged == g # "" => \A r \in Of(g) : PrintT("MISMATCH " \o ToJson([prop |-> "C20", group |-> g] @@ r))
